@@ -1332,6 +1332,24 @@ impl Simk {
         self.req(serial).foot.iter().filter(|r| r.write == write && r.what == what).map(|r| r.len).sum()
     }
 
+    /// Complete a (non-pool) READ/RECV with exactly `bytes`, followed in the
+    /// caller's buffer (beyond the returned count) by `after`.
+    pub fn complete_data(&mut self, serial: u32, bytes: &[u8], after: &[u8]) {
+        let req = self.req(serial).clone();
+        assert!(!req.done && matches!(req.opcode, OP_READ | OP_RECV) && !req.pool);
+        self.check_foot(serial, true);
+        let Some(r) = req.foot.iter().find(|r| r.write && r.what == "buffer") else {
+            self.finish(serial, 0, 0);
+            return;
+        };
+        let n = bytes.len().min(r.len);
+        unsafe { std::ptr::copy_nonoverlapping(bytes.as_ptr(), r.addr as *mut u8, n) };
+        let m = after.len().min(r.len - n);
+        unsafe { std::ptr::copy_nonoverlapping(after.as_ptr(), (r.addr + n) as *mut u8, m) };
+        self.pending_out.data = bytes[..n].to_vec();
+        self.finish(serial, n as i32, 0);
+    }
+
     /// Complete request `serial` with outcome `out`.
     pub fn complete(&mut self, serial: u32, out: Out) {
         let req = self.req(serial).clone();
